@@ -205,6 +205,8 @@ def make_objective(rec, spec, target=None):
             rec.used_dev.add(("obj", k))
             if alt == "target":
                 val = float(rec.case["options"]["target"]) - 1.0
+            elif alt == "target_eq":
+                val = float(rec.case["options"]["target"])
             elif alt in DEV_VALUES:
                 val = DEV_VALUES[alt]
             else:
